@@ -882,9 +882,9 @@ def knot_refinement(degree, knotvector, ctrlpts, **kwargs):
         if density < 1:
             raise GeomdlException("Density value cannot be less than 1", data=dict(density=density))
 
-    # Add additional knots to be refined
+    # Add additional knots to be refined (on a copy: the caller's list is not extended, a tuple is accepted)
     if add_knot_list:
-        knot_list += list(add_knot_list)
+        knot_list = list(knot_list) + list(add_knot_list)
 
     # Sort the list and convert to a set to make sure that the values are unique
     knot_list = sorted(set(knot_list))
